@@ -93,6 +93,16 @@ func main() {
 		*flagTier = t
 	}
 	code := 0
+	// watchdog: a checker that does not finish is a failed check, never a silent pass
+	go func() {
+		limit := 15 * time.Minute
+		if *flagTier == "thorough" {
+			limit = 60 * time.Minute
+		}
+		time.Sleep(limit)
+		fmt.Printf("CHECKER-TIMEOUT after %v\nVIOLATION property=%s replay=%s\n", limit, *flagProp, "checker-timeout")
+		os.Exit(1)
+	}()
 	func() {
 		defer func() {
 			if e := recover(); e != nil {
